@@ -30,29 +30,38 @@ CODE = {v: k for k, v in ST.items()}
 
 # =============================================================================================== L1: group histories
 
-class Injected(Exception):
-    pass
+class Injected(RuntimeError):
+    """an injected failure that is not a ValueError"""
+
+
+class InjectedValueError(ValueError):
+    """an injected failure that is a ValueError (what FastCGIProcessGroup raises when its socket cannot be created)"""
+
+
+def _raise(cfg, what):
+    raise (InjectedValueError if cfg.flavor == 'ValueError' else Injected)(what)
 
 
 def _faulty(cls):
     """a group configuration whose after_setuid / make_group / (group's) before_remove can be made to fail"""
     class Faulty(cls):
         fault = None
+        flavor = 'RuntimeError'
 
         def after_setuid(self):
             if self.fault == 'after_setuid':
-                raise Injected('after_setuid')
+                _raise(self, 'after_setuid')
             return cls.after_setuid(self)
 
         def make_group(self):
             if self.fault == 'make_group':
-                raise Injected('make_group')
+                _raise(self, 'make_group')
             g = cls.make_group(self)
             orig, cfg = g.before_remove, self
 
             def before_remove():
                 if cfg.fault == 'before_remove':
-                    raise Injected('before_remove')
+                    _raise(cfg, 'before_remove')
                 return orig()
             g.before_remove = before_remove
             return g
@@ -103,8 +112,9 @@ class GroupWorld:
         return list(self.sup.process_groups)
 
     def op(self, op):
-        """op = ['add', name, fault, via] | ['remove', name, unstopped, fault, via] | ['sockdir', 0|1]
-        returns (result text, env_fault) ; result: true | false | raised:<what> | badname"""
+        """op = ['add', name, fault, via, flavor] | ['remove', name, unstopped, fault, via, flavor] | ['sockdir', 0|1]
+        (flavor: the class of the injected exception, 'ValueError' or 'RuntimeError'; optional)
+        returns the result text: true | false | fault:<code> | raised:<what> | badname"""
         from supervisor.xmlrpc import RPCError, Faults
         if op[0] == 'sockdir':
             if op[1]:
@@ -118,7 +128,7 @@ class GroupWorld:
             if op[0] == 'add':
                 fault, via = op[2], op[3]
                 if cfg is not None:
-                    cfg.fault = fault
+                    cfg.fault, cfg.flavor = fault, (op[4] if len(op) > 4 and op[4] else 'RuntimeError')
                 if via == 'rpc' or cfg is None:
                     r = self.iface.addProcessGroup(name)
                 else:
@@ -126,7 +136,7 @@ class GroupWorld:
             else:
                 unstopped, fault, via = op[2], op[3], op[4]
                 if cfg is not None:
-                    cfg.fault = fault
+                    cfg.fault, cfg.flavor = fault, (op[5] if len(op) > 5 and op[5] else 'RuntimeError')
                 g = self.sup.process_groups.get(name)
                 if g is not None:
                     for p in g.processes.values():
@@ -139,12 +149,10 @@ class GroupWorld:
                     r = self.sup.remove_process_group(name)
             return 'true' if r is True else 'false' if r is False else 'value:%r' % (r,)
         except RPCError as e:
-            if e.code in (Faults.ALREADY_ADDED, Faults.STILL_RUNNING):
-                return 'false'
             if e.code == Faults.BAD_NAME:
                 return 'badname'
             return 'fault:%d' % e.code
-        except Injected as e:
+        except (Injected, InjectedValueError) as e:
             return 'raised:' + str(e)
         except KeyError:
             return 'raised:KeyError'
@@ -205,11 +213,24 @@ def group_history(ctx, hist, tag=''):
             # ---- model line ------------------------------------------------------------------------------------
             if res == 'badname':
                 continue            # refused by the RPC layer before the Supervisor method is called
+            rpc = (op[3] if op[0] == 'add' else op[4]) == 'rpc'
             if op[0] == 'add':
-                fault = 'make_group' if env_missing and op[2] in (None, 'make_group') else op[2]
-                ops.append('add %s %s' % (name, fault or '-'))
+                flavor = op[4] if len(op) > 4 and op[4] else 'RuntimeError'
+                fault = op[2]
+                if env_missing and fault is None:
+                    fault, flavor = 'make_group', 'ValueError'       # the real FastCGIProcessGroup raises ValueError
+                if rpc:
+                    ops.append('rpcadd %s %s %s' % (name, fault or '-', flavor if fault else '-'))
+                else:
+                    ops.append('add %s %s' % (name, fault or '-'))
             else:
-                ops.append('remove %s %d %s' % (name, 1 if op[2] else 0, op[3] or '-'))
+                flavor = op[5] if len(op) > 5 and op[5] else 'RuntimeError'
+                if rpc:
+                    ops.append('rpcremove %s %d %s %s' % (name, 1 if op[2] else 0, op[3] or '-', flavor if op[3] else '-'))
+                else:
+                    ops.append('remove %s %d %s' % (name, 1 if op[2] else 0, op[3] or '-'))
+            if res.startswith('fault:') or res.startswith('raised:'):
+                ctx.count('group-failure:%s:%s' % (op[0], res if res.startswith('fault:') else 'raised'))
             lines.append('res=%s | notes=%s | groups=%s' % (res, ','.join('%s:%s:%d' % (c, g, p) for c, g, p, _ in notes) or '-', ','.join(after) or '-'))
     finally:
         w.close()
@@ -218,8 +239,9 @@ def group_history(ctx, hist, tag=''):
     return ops, lines
 
 
-GROUP_OPS = [['add', n, f, None] for n in 'ab' for f in (None, 'after_setuid', 'make_group')] + \
-            [['remove', n, u, f, None] for n in 'ab' for (u, f) in ((False, None), (True, None), (False, 'before_remove'))]
+GROUP_OPS = [['add', n, f, None, None] for n in 'ab' for f in (None, 'after_setuid', 'make_group')] + \
+            [['remove', n, u, f, None, None] for n in 'ab' for (u, f) in ((False, None), (True, None), (False, 'before_remove'))]
+FLAVORS = ['ValueError', 'RuntimeError']
 
 GROUP_CORPUS = [
     # C11-3's story on the FastCGI group: the socket cannot be bound, the addition fails; the operator retries
@@ -227,6 +249,12 @@ GROUP_CORPUS = [
     [['add', 'a', 'make_group', 'rpc'], ['add', 'a', None, 'rpc'], ['remove', 'a', True, None, 'rpc'], ['remove', 'a', False, 'before_remove', 'direct'], ['remove', 'a', False, None, 'rpc'], ['add', 'a', None, 'direct']],
     [['add', 'b', 'after_setuid', 'direct'], ['add', 'b', None, 'direct'], ['add', 'b', None, 'direct'], ['remove', 'b', False, None, 'direct'], ['remove', 'b', False, None, 'direct']],
     [['add', 'nosuch', None, 'rpc'], ['remove', 'a', False, None, 'rpc'], ['remove', 'a', False, None, 'direct']],
+    # a failed addition through the RPC method: a ValueError is answered as a fault, another exception escapes; either way nothing is
+    # announced and the retry announces once (F48)
+    [['add', 'a', 'make_group', 'rpc', 'ValueError'], ['add', 'a', 'make_group', 'rpc', 'RuntimeError'], ['add', 'a', 'after_setuid', 'rpc', 'ValueError'],
+     ['add', 'a', 'after_setuid', 'rpc', 'RuntimeError'], ['add', 'a', 'make_group', 'direct', 'ValueError'], ['add', 'a', None, 'rpc'], ['add', 'a', None, 'rpc'],
+     ['remove', 'a', True, None, 'rpc'], ['remove', 'a', False, 'before_remove', 'rpc', 'ValueError'], ['remove', 'a', False, 'before_remove', 'rpc', 'RuntimeError'],
+     ['remove', 'a', False, None, 'rpc']],
 ]
 
 
@@ -239,9 +267,9 @@ def gen_group_history(rng):
         if r < 0.1:
             h.append(['sockdir', rng.randrange(2)])
         elif r < 0.55:
-            h.append(['add', n, rng.choice([None, None, None, 'after_setuid', 'make_group']), via])
+            h.append(['add', n, rng.choice([None, None, None, 'after_setuid', 'make_group']), via, rng.choice(FLAVORS)])
         else:
-            h.append(['remove', n, rng.random() < 0.3, rng.choice([None, None, None, 'before_remove']), via])
+            h.append(['remove', n, rng.random() < 0.3, rng.choice([None, None, None, 'before_remove']), via, rng.choice(FLAVORS)])
     return h
 
 
@@ -260,7 +288,8 @@ def group_histories(ctx):
         for combo in itertools.product(range(len(GROUP_OPS)), repeat=L):
             h = [list(GROUP_OPS[i]) for i in combo]
             for op in h:
-                op[-1] = 'rpc' if rng.random() < 0.5 else 'direct'
+                op[-2] = 'rpc' if rng.random() < 0.5 else 'direct'
+                op[-1] = rng.choice(FLAVORS)
             one(h, ':exhaustive')
     for _ in range(ctx.n(300, 4000)):
         one(gen_group_history(rng), ':random')
